@@ -277,7 +277,7 @@ def replay(obname, model, result):
                 "try:\n"
                 "    geo.write(f); h = mulgrid(f); h.write(f + '2')\n"
                 "    tol = 0.005 * (0.3048 if feet else 1.) + 1e-9\n"
-                "    ok = h.unit_type == geo.unit_type and [n.name for n in h.nodelist] == [n.name for n in geo.nodelist] and all(np.allclose(a.pos, b.pos, atol=tol) for a, b in zip(geo.nodelist, h.nodelist))\n"
+                "    ok = h.unit_type == geo.unit_type and (geo.block_order is None or h.block_order == geo.block_order) and h.atmosphere_type == geo.atmosphere_type and h.convention == geo.convention and [n.name for n in h.nodelist] == [n.name for n in geo.nodelist] and all(np.allclose(a.pos, b.pos, atol=tol) for a, b in zip(geo.nodelist, h.nodelist))\n"
                 "    ok = ok and all(a.centre_specified == b.centre_specified and np.allclose(a.centre, b.centre, atol=tol) and [n.name for n in a.node] == [n.name for n in b.node] for a, b in zip(geo.columnlist, h.columnlist))\n"
                 "    ok = ok and all(abs(a.surface - b.surface) <= tol for a, b in zip(geo.columnlist, h.columnlist)) and all(abs(a.bottom - b.bottom) <= tol and abs(a.centre - b.centre) <= tol for a, b in zip(geo.layerlist, h.layerlist))\n"
                 "    ok = ok and h.block_name_list == geo.block_name_list and h.block_connection_name_list == geo.block_connection_name_list and open(f).read() == open(f + '2').read()\n"
